@@ -111,7 +111,62 @@ static int op_invert(int argc, tok_t *a, out_t *o) {
   vars_clear(&V); return 0;
 }
 
+/* ---- mpf: alias_fdiv / alias_fmul <r> <u> <v> 0 A0 A1 A2, alias_fsqrt <r> <u> 0 0 A0 A1 A2, alias_fdiv_ui <r> <u> 0 <ui> A0 A1 A2
+   three mpf variables, each given as the token group `prec size exp [limbs]` and held in a block of max (prec + 1, |size|)
+   limbs with `prec` in the _mp_prec field (more limbs than prec + 1: the state mpf_set_prec_raw leaves behind); stale data
+   above the limbs.  Output for each variable: prec size exp [limbs] (raw fields), or the exception marker. */
+#define NF 3
+typedef struct { mpf_t f; mp_size_t real_prec; } fvar_t;
+static int f_is_opnd(const tok_t *a) {
+  if (!(a[0].kind == T_NUM && a[1].kind == T_NUM && a[2].kind == T_NUM && a[3].kind == T_VEC)) return 0;
+  long s = tok_long(&a[1]); if (s < 0) s = -s;
+  return a[1].n <= 1 && a[2].n <= 1 && s == a[3].n && !a[0].neg && a[0].n <= 1 && tok_long(&a[0]) >= 2;
+}
+static void f_make(fvar_t *x, const tok_t *a) {
+  long prec = tok_long(&a[0]), n = a[3].n;
+  long p0 = prec; if (n - 1 > p0) p0 = n - 1;
+  mpf_init2(x->f, (mp_bitcnt_t)64 * (p0 - 1));       /* __GMPF_BITS_TO_PREC (64 (p0 - 1)) == p0 for p0 >= 2 */
+  x->real_prec = x->f->_mp_prec;
+  x->f->_mp_prec = prec;
+  for (long i = 0; i <= x->real_prec; i++) x->f->_mp_d[i] = 0xDEADBEEFDEADBEEFUL;
+  for (long i = 0; i < n; i++) x->f->_mp_d[i] = a[3].d[i];
+  x->f->_mp_size = (int)tok_long(&a[1]);
+  x->f->_mp_exp = tok_long(&a[2]);
+}
+static void f_out(out_t *o, fvar_t *F) {
+  for (int i = 0; i < NF; i++) {
+    long n = F[i].f->_mp_size < 0 ? -(long)F[i].f->_mp_size : F[i].f->_mp_size;
+    out_long(o, F[i].f->_mp_prec); out_long(o, F[i].f->_mp_size); out_long(o, F[i].f->_mp_exp);
+    if (n > F[i].real_prec + 1) out_err(o, "oob"); else out_vec(o, F[i].f->_mp_d, n);
+  }
+}
+static void f_clear(fvar_t *F) { for (int i = 0; i < NF; i++) { F[i].f->_mp_prec = F[i].real_prec; mpf_clear(F[i].f); } }
+static int frun(int argc, tok_t *a, out_t *o, int which) {
+  if (argc != 16) return -1;
+  for (int i = 0; i < 4; i++) if (a[i].kind != T_NUM) return -1;
+  for (int i = 0; i < NF; i++) if (!f_is_opnd(a + 4 + 4 * i)) return -1;
+  long r = tok_long(&a[0]), u = tok_long(&a[1]), v = tok_long(&a[2]);
+  if (r < 0 || r >= NF || u < 0 || u >= NF || v < 0 || v >= NF || a[3].neg || a[3].n > 1) return -1;
+  unsigned long ui = tok_ulong(&a[3]);
+  fvar_t F[NF];
+  for (int i = 0; i < NF; i++) f_make(&F[i], a + 4 + 4 * i);
+  int e = 0;
+  switch (which) {
+  case 0: e = GUARD(mpf_div(F[r].f, F[u].f, F[v].f)); break;
+  case 1: e = GUARD(mpf_mul(F[r].f, F[u].f, F[v].f)); break;
+  case 2: e = GUARD(mpf_sqrt(F[r].f, F[u].f)); break;
+  default: e = GUARD(mpf_div_ui(F[r].f, F[u].f, ui)); break;
+  }
+  if (e) out_err(o, which == 2 ? "sqrtneg" : "div0"); else f_out(o, F);
+  f_clear(F); return 0;
+}
+static int op_fdiv(int argc, tok_t *a, out_t *o) { return frun(argc, a, o, 0); }
+static int op_fmul(int argc, tok_t *a, out_t *o) { return frun(argc, a, o, 1); }
+static int op_fsqrt(int argc, tok_t *a, out_t *o) { return frun(argc, a, o, 2); }
+static int op_fdiv_ui(int argc, tok_t *a, out_t *o) { return frun(argc, a, o, 3); }
+
 const opdef_t ops_alias2[] = {
+  {"alias_fdiv", op_fdiv}, {"alias_fmul", op_fmul}, {"alias_fsqrt", op_fsqrt}, {"alias_fdiv_ui", op_fdiv_ui},
   {"alias_mul", op_mul}, {"alias_addmul", op_addmul}, {"alias_submul", op_submul},
   {"alias_gcdext", op_gcdext}, {"alias_powm", op_powm}, {"alias_powm_ui", op_powm_ui},
   {"alias_sqrt", op_sqrt}, {"alias_lcm", op_lcm}, {"alias_invert", op_invert},
